@@ -112,7 +112,7 @@ func goodValue(rng *rand.Rand, t abi.Type, name, method string, now int64) inter
 		}
 		return "some description " + fmt.Sprint(rng.Intn(100))
 	case abi.BytesTy:
-		n := []int{0, 1, 31, 32, 33, 64}[rng.Intn(6)]
+		n := []int{0, 1, 31, 32, 33, 40, 64}[rng.Intn(7)]
 		if has("hashlock") {
 			n = 32
 		}
@@ -339,6 +339,54 @@ func edgeTuples(rng *rand.Rand, m abi.Method, base tuple, now int64) []tuple {
 			t.args[i] = s.Interface()
 			res = append(res, t)
 		}
+	}
+	return res
+}
+
+var bytesLens = []int{0, 1, 31, 32, 33, 40}
+
+func hasBytes(t abi.Type) bool {
+	return t.T == abi.BytesTy || t.T == abi.SliceTy && hasBytes(*t.Elem)
+}
+
+// bytesOfLen: the value of type t (bytes, bytes[], ...) whose byte strings have n bytes
+func bytesOfLen(rng *rand.Rand, t abi.Type, n int) interface{} {
+	if t.T == abi.BytesTy {
+		b := make([]byte, n)
+		rng.Read(b)
+		if n > 0 {
+			b[n-1] |= 1 // content ends with a non-zero byte: content and padding cannot be confused
+		}
+		return b
+	}
+	k := 1 + rng.Intn(2)
+	s := reflect.MakeSlice(t.Type, k, k)
+	for i := 0; i < k; i++ {
+		s.Index(i).Set(reflect.ValueOf(bytesOfLen(rng, *t.Elem, n)))
+	}
+	return s.Interface()
+}
+
+// one tuple per length: the base tuple with every bytes-carrying argument at that length
+func bytesLenTuples(rng *rand.Rand, m abi.Method, base tuple) []tuple {
+	var idx []int
+	for i, a := range m.Inputs {
+		if hasBytes(a.Type) {
+			idx = append(idx, i)
+		}
+	}
+	if len(idx) == 0 {
+		return nil
+	}
+	var res []tuple
+	for _, n := range bytesLens {
+		t := base
+		t.args = cloneArgs(base.args)
+		t.tag = fmt.Sprintf("bytes-len-%d", n)
+		for _, i := range idx {
+			t.args[i] = bytesOfLen(rng, m.Inputs[i].Type, n)
+		}
+		res = append(res, t)
 	}
 	return res
 }
